@@ -24,7 +24,9 @@ TOutcome ==
      ELSE IF sc.panic.value = "abort" THEN ~Cur.ok /\ Cur.handle_calls = 0 /\ Cur.aborted
      ELSE IF Recovers(sc)
      THEN /\ Cur.handle_calls = 1 /\ Cur.seen = <<sc.panic.value>>
-          /\ ~Cur.ok /\ Cur.code = 15 /\ Cur.msg = "recovered" /\ Cur.got = GotBefore(sc)
+          /\ ~Cur.ok /\ Cur.code = 15 /\ Cur.got = GotBefore(sc)
+          \* ("bytes": the function's message is not valid UTF-8 -- how it is made presentable is the protocol's business)
+          /\ (sc.panic.value # "bytes" => Cur.msg = "recovered")
           \* "the client receives the error that function returned": with its metadata, and next to the trailers the
           \* handler had set before it panicked
           /\ Cur.recmeta = "m" /\ (sc.kind \in {"server", "bidi"} => Cur.rectrl = "t")
